@@ -54,4 +54,5 @@ props! {
     "X03" => x03,
     "X01" => x01,
     "X04" => x04,
+    "X08" => x08,
 }
